@@ -641,6 +641,7 @@ class MainRun(Harness):
         vals['skip_rate_test'] = True
         if 'badport' in self.shape:
             vals['json'] = 1          # a rejected targets file must not leave a half-opened JSON array on stdout either
+        vals.update(getattr(self, 'more_vals', {}))
         net = AE.FakeNet([])
         from props.c08 import StubConcurrent
         sc = StubConcurrent(list(range(len(self.shape))))
@@ -649,7 +650,8 @@ class MainRun(Harness):
         sys.argv = ['ssh-audit'] + argv
         buf = io.StringIO()
         try:
-            with AE.patched(M.ssh_audit, argparse=StubArgparse(vals), concurrent=sc), AE.patched(M.ssh_socket, socket=net), AE.patched(M.utils, ipaddress=AE.IpShim):
+            more = {'json': AE.ConcJson} if getattr(self, 'conc_json', False) else {}
+            with AE.patched(M.ssh_audit, argparse=StubArgparse(vals), concurrent=sc, **more), AE.patched(M.ssh_socket, socket=net), AE.patched(M.utils, ipaddress=AE.IpShim):
                 M.ssh_audit.__dict__['open'] = lambda *a, **k: F()
                 try:
                     with contextlib.redirect_stdout(buf):
@@ -662,7 +664,10 @@ class MainRun(Harness):
         if zx.active():
             for a, k in zx.cur().stdout:
                 printed += ''.join(x if isinstance(x, str) else '?' for x in a) + k.get('end', '\n')
-        return {'ret': r, 'resolved': [(h, p) for h, p, _ in net.resolved], 'dialled': [c.connected_to for c in net.made], 'stdout_opens_array': printed.lstrip().startswith('[') and 'badport' in self.shape}
+        obs = {'ret': r, 'resolved': [(h, p) for h, p, _ in net.resolved], 'dialled': [c.connected_to for c in net.made], 'stdout_opens_array': printed.lstrip().startswith('[') and 'badport' in self.shape}
+        if getattr(self, 'keep_printed', False):
+            obs['printed'] = printed
+        return obs
 
     def check(self, inp, obs):
         r = obs['ret']
